@@ -78,6 +78,16 @@ pub struct Beh {
     /// number of clones to create up front (C18 routing)
     #[serde(default)]
     pub clones: usize,
+    /// per configured returns(v): expected deliveries (checked against clone/drop counters)
+    #[serde(default)]
+    pub vals: Vec<ValRep>,
+}
+#[derive(Clone, Debug, Deserialize, Serialize)]
+pub struct ValRep {
+    pub id: u32,
+    pub owned: bool,
+    pub single: bool,
+    pub delivered: u32,
 }
 
 /// What the real code did for one top-level call.
@@ -135,6 +145,7 @@ pub struct Stats {
     pub divergences: u64,
     pub drift: u64,
     pub distinct_configs: u64,
+    pub with_calls: u64,
 }
 
 #[derive(Serialize, Clone)]
@@ -220,6 +231,16 @@ impl Replayer {
         if self.cfg_seen.insert(ck) {
             self.stats.distinct_configs += 1;
         }
+        for l in 1..=beh.leaves.len() {
+            for p in 1..=beh.leaves[l - 1].pats.len() {
+                for g in 1..=beh.leaves[l - 1].pats[p - 1].chain.len() {
+                    reset_id(val_id(l, p, g));
+                }
+            }
+        }
+        if beh.steps.iter().any(|s| s.op == "call") {
+            self.stats.with_calls += 1;
+        }
         // 1. construction through the real builder API
         let built = catch_unwind(AssertUnwindSafe(|| {
             let dc = build_clauses(&beh.leaves);
@@ -296,6 +317,17 @@ impl Replayer {
                     clones.clear();
                     let r = finish(orig, &step.via);
                     self.check_verdict(beh, si + 1, v, &r, &mock_msgs);
+                    // C12: the mock is gone now; every configured value was constructed once, cloned once
+                    // per delivery (never for single-use or lent values) and dropped exactly once per copy
+                    for vr in &beh.vals {
+                        let (made, clones_n, drops) = counts(vr.id);
+                        let exp_clones = if vr.owned && !vr.single { vr.delivered } else { 0 };
+                        if made != 1 || clones_n != exp_clones || drops != made + clones_n {
+                            self.diverge(beh, si + 1, "value conservation (constructed, cloned, dropped)", true,
+                                json!({"id": vr.id, "made": 1, "clones": exp_clones, "drops": 1 + exp_clones}),
+                                json!({"id": vr.id, "made": made, "clones": clones_n, "drops": drops}));
+                        }
+                    }
                     break;
                 }
                 other => panic!("harness: unknown step {other}"),
@@ -401,7 +433,28 @@ pub fn extract(line: &str) -> Option<String> {
     serde_json::from_str::<String>(lit).ok()
 }
 
-pub fn run_replay(input: &mut dyn BufRead, out_path: &str, raw: bool) -> i32 {
+pub struct Opts {
+    pub raw: bool,
+    /// replay every behaviour a second time with calls routed over this many clones
+    pub clones: usize,
+    pub seed: u64,
+    pub tlc_log: Option<String>,
+    /// replace the entry point of the final verification (round-robin over these) instead of the model's
+    pub vias: Vec<String>,
+}
+
+pub fn run_replay(input: &mut dyn BufRead, out_path: &str, opts: &Opts) -> i32 {
+    use std::io::Write;
+    let raw = opts.raw;
+    let mut rng = opts.seed.wrapping_mul(0x9E3779B97F4A7C15) | 1;
+    let mut next = move || {
+        rng ^= rng << 13;
+        rng ^= rng >> 7;
+        rng ^= rng << 17;
+        rng
+    };
+    let mut tlc_log = opts.tlc_log.as_ref().map(|p| std::fs::File::create(p).expect("tlc log"));
+    let mut routed = 0u64;
     let mut rp = Replayer::new();
     let mut bad_lines = 0u64;
     let mut line = String::new();
@@ -424,12 +477,36 @@ pub fn run_replay(input: &mut dyn BufRead, out_path: &str, raw: bool) -> i32 {
         } else {
             match extract(l) {
                 Some(d) => d,
-                None => continue,
+                None => {
+                    if let Some(f) = tlc_log.as_mut() {
+                        let _ = writeln!(f, "{l}");
+                    }
+                    continue;
+                }
             }
         };
         match serde_json::from_str::<Beh>(&doc) {
-            Ok(beh) => {
+            Ok(mut beh) => {
+                if !opts.vias.is_empty() {
+                    let n = rp.stats.behaviours as usize;
+                    for st in beh.steps.iter_mut() {
+                        if st.op == "finish" {
+                            st.via = opts.vias[n % opts.vias.len()].clone();
+                        }
+                    }
+                }
                 rp.replay(&beh);
+                if opts.clones > 0 && beh.new.k == "ok" && beh.steps.iter().any(|s| s.op == "call") {
+                    // C18/C02: clones share everything -- the same expectations must hold when the calls
+                    // are routed over the original and its clones
+                    let mut b2 = beh.clone();
+                    b2.clones = opts.clones;
+                    for st in b2.steps.iter_mut() {
+                        st.inst = (next() % (opts.clones as u64 + 1)) as usize;
+                    }
+                    rp.replay(&b2);
+                    routed += 1;
+                }
             }
             Err(e) => {
                 bad_lines += 1;
@@ -442,6 +519,7 @@ pub fn run_replay(input: &mut dyn BufRead, out_path: &str, raw: bool) -> i32 {
     let result = json!({
         "stats": rp.stats,
         "bad_lines": bad_lines,
+        "routed_over_clones": routed,
         "divergences": rp.divs,
         "samples": rp.samples,
     });
